@@ -34,9 +34,12 @@ use futures_util::stream::{self, Stream};
 use hickory_net::runtime::TokioRuntimeProvider;
 use hickory_net::{DnsError, DnsHandle, NetError};
 use hickory_proto::op::{DnsRequest, DnsRequestOptions, DnsResponse, Message, MessageType, OpCode, Query, ResponseCode};
-use hickory_proto::rr::rdata::{A, CNAME, NS, SOA};
+use hickory_proto::rr::rdata::{A, AAAA, CNAME, NS, SOA, SRV, TXT};
 use hickory_proto::rr::{Name, RData, Record, RecordType};
 use hickory_resolver::caching_client::CachingClient;
+use hickory_resolver::config::LookupIpStrategy;
+use hickory_resolver::lookup_ip::LookupIpFuture;
+use hickory_resolver::Hosts;
 use serde_json::{json, Value};
 use vcore::Local;
 
@@ -64,11 +67,17 @@ enum Outcome {
 struct Upstream {
     table: Arc<Vec<(Query, Reply)>>,
     calls: Arc<Mutex<Vec<u32>>>,
+    /// knob: what the handle answers to `is_verifying_dnssec()` (CachingClient drops the negative TTL then)
+    verifying: bool,
 }
 
 impl DnsHandle for Upstream {
     type Response = Pin<Box<dyn Stream<Item = Result<DnsResponse, NetError>> + Send>>;
     type Runtime = TokioRuntimeProvider;
+
+    fn is_verifying_dnssec(&self) -> bool {
+        self.verifying
+    }
 
     fn send(&self, request: DnsRequest) -> Self::Response {
         let q = request.queries[0].clone();
@@ -107,6 +116,19 @@ struct World {
     /// (the alias is then one of the records of the very response that is cached)
     same_response_l: Vec<Option<u64>>,
     preserve: bool,
+    /// knobs: request options (0 default, 1 RD=0, 2 DO=1), DNSSEC-verifying handle
+    opts: u8,
+    verifying: bool,
+}
+
+fn options(k: u8) -> DnsRequestOptions {
+    let mut o = DnsRequestOptions::default();
+    match k {
+        1 => o.recursion_desired = false,
+        2 => o.edns_set_dnssec_ok = true,
+        _ => {}
+    }
+    o
 }
 
 fn a_rec(owner: &str, ttl: u32, k: u8) -> Record {
@@ -203,6 +225,77 @@ fn worlds(thorough: bool) -> Vec<World> {
         raw.push((format!("cname-query c={c}"), vec![(Query::new(n("n.z."), RecordType::CNAME), pos(vec![cname_rec("n.z.", "t.z.", c)]))]));
     }
 
+    // audit round: more response shapes
+    {
+        let nx = ResponseCode::NXDomain;
+        let ok = ResponseCode::NoError;
+        // several SOAs in the authority section / an SOA in the ANSWER section of a negative reply
+        for (s1, s2) in [((9u32, 1u32), (1u32, 9u32)), ((1, 1), (9, 9)), ((9, 9), (1, 1)), ((2, 9), (9, 2))] {
+            raw.push((format!("negative two-SOAs {s1:?} {s2:?}"), vec![(qa("n.z."), Reply::Msg(vec![], vec![soa_rec(s1.0, s1.1), soa_rec(s2.0, s2.1)], vec![], nx))]));
+        }
+        for (s, m) in [(1u32, 9u32), (9, 1), (2, 2)] {
+            raw.push((format!("negative SOA-in-answer soa_ttl={s} minimum={m}"), vec![(qa("n.z."), Reply::Msg(vec![soa_rec(s, m)], vec![], vec![], ok))]));
+        }
+        // CNAME + SOA in one response (alias to NODATA / NXDOMAIN), CNAME TTL below / above the negative TTL
+        for rcode in [nx, ok] {
+            for (c, s, m) in [(1u32, 9u32, 9u32), (9, 1, 9), (9, 9, 1), (2, 2, 2)] {
+                raw.push((
+                    format!("cname-plus-soa {rcode:?} c={c} soa_ttl={s} minimum={m}"),
+                    vec![
+                        (qa("n.z."), Reply::Msg(vec![cname_rec("n.z.", "t.z.", c)], vec![soa_rec(s, m)], vec![], rcode)),
+                        (qa("t.z."), Reply::Msg(vec![], vec![soa_rec(s, m)], vec![], rcode)),
+                    ],
+                ));
+            }
+        }
+        // referral-like: NS in the authority section, glue, no SOA, empty answer; the glue name looked up later
+        for g in [1u32, 9] {
+            raw.push((
+                format!("referral-like glue_ttl={g}"),
+                vec![
+                    (qa("n.z."), Reply::Msg(vec![], vec![Record::from_rdata(n("z."), 9, RData::NS(NS(n("ns.z."))))], vec![a_rec("ns.z.", g, 3)], ok)),
+                    (qa("ns.z."), pos(vec![a_rec("ns.z.", g, 3)])),
+                ],
+            ));
+            // positive answer with glue: the additional-section name looked up directly later
+            raw.push((
+                format!("with-sections-and-glue-lookup glue_ttl={g}"),
+                vec![
+                    (qa("n.z."), Reply::Msg(vec![a_rec("n.z.", 9, 1)], vec![Record::from_rdata(n("z."), 9, RData::NS(NS(n("ns.z."))))], vec![a_rec("ns.z.", g, 3)], ok)),
+                    (qa("ns.z."), pos(vec![a_rec("ns.z.", g, 3)])),
+                ],
+            ));
+        }
+        // alias loop and a chain longer than the client follows (depth exhausted)
+        raw.push(("alias-loop".into(), vec![(qa("n.z."), pos(vec![cname_rec("n.z.", "t.z.", 9)])), (qa("t.z."), pos(vec![cname_rec("t.z.", "n.z.", 9)]))]));
+        {
+            let names: Vec<String> = (0..10).map(|i| format!("h{i}.z.")).collect();
+            let mut table = vec![];
+            for i in 0..9 {
+                table.push((qa(&names[i]), pos(vec![cname_rec(&names[i], &names[i + 1], 300)])));
+            }
+            table.push((qa(&names[9]), pos(vec![a_rec(&names[9], 300, 1)])));
+            raw.push(("alias-chain-of-9-responses".into(), table));
+        }
+        // SRV (its own arm of the chain fold) and ANY
+        for (st, at) in [(2u32, 1u32), (1, 9)] {
+            raw.push((
+                format!("srv ttl={st} target_a_ttl={at}"),
+                vec![(
+                    Query::new(n("n.z."), RecordType::SRV),
+                    Reply::Msg(vec![Record::from_rdata(n("n.z."), st, RData::SRV(SRV::new(0, 0, 53, n("t.z."))))], vec![], vec![a_rec("t.z.", at, 1)], ok),
+                )],
+            ));
+        }
+        raw.push((
+            "any a=2 txt=9".into(),
+            vec![(
+                Query::new(n("n.z."), RecordType::ANY),
+                pos(vec![a_rec("n.z.", 2, 1), Record::from_rdata(n("n.z."), 9, RData::TXT(TXT::new(vec!["x".to_string()])))]),
+            )],
+        ));
+    }
+
     // alias chains of 1, 2 and 3 links: EVERY assignment of TTLs from {1, 2, 300} to the links and the
     // terminal record (so the minimum sits on every possible position), x record order in the answer
     // section, in ONE response and split over two responses after every link
@@ -275,7 +368,9 @@ fn worlds(thorough: bool) -> Vec<World> {
             let mut same: Option<u64> = None;
             while let Some(i) = cur {
                 hops += 1;
-                if hops > 8 {
+                // the truth follows the chain as far as it goes (how deep the client follows is its policy); a
+                // loop has no answer
+                if hops > 32 {
                     break;
                 }
                 cur = None;
@@ -291,7 +386,7 @@ fn worlds(thorough: bool) -> Vec<World> {
                         let mut found_final = false;
                         let mut aliased = false;
                         for _ in 0..8 {
-                            let finals: Vec<&Record> = an.iter().filter(|r| r.name == owner && r.record_type() == q.query_type).collect();
+                            let finals: Vec<&Record> = an.iter().filter(|r| r.name == owner && (r.record_type() == q.query_type || (q.query_type == RecordType::ANY && r.record_type() != RecordType::CNAME))).collect();
                             if !finals.is_empty() {
                                 for r in finals {
                                     l = Some(l.map_or(r.ttl as u64, |x| x.min(r.ttl as u64)));
@@ -321,10 +416,17 @@ fn worlds(thorough: bool) -> Vec<World> {
                             cur = find(&owner, q.query_type);
                             oc = Outcome::Transient; // unless the target resolves
                         } else {
-                            let soa = au.iter().find_map(|r| match &r.data {
-                                RData::SOA(s) => Some((r.ttl, s.minimum)),
-                                _ => None,
-                            });
+                            // with several SOAs (or an SOA in the answer section) the statement does not say
+                            // which one counts: the weakest bound = the largest min(TTL, MINIMUM) of them
+                            let soa = an
+                                .iter()
+                                .chain(au.iter())
+                                .filter_map(|r| match &r.data {
+                                    RData::SOA(s) => Some(r.ttl.min(s.minimum)),
+                                    _ => None,
+                                })
+                                .max()
+                                .map(|v| (v, v));
                             let nl = soa.map(|(s, m)| s.min(m) as u64).unwrap_or(0);
                             l = Some(l.map_or(nl, |x| x.min(nl)));
                             oc = Outcome::Negative(soa);
@@ -336,8 +438,68 @@ fn worlds(thorough: bool) -> Vec<World> {
             chain_l.push(l);
             same_response_l.push(same);
         }
+        // the enumerated alias-chain worlds run with default options; the others with every request-option
+        // variant; negative / failing worlds also over a handle that claims to verify DNSSEC
+        let enumerated_chain = label.starts_with("chain1-") || label.starts_with("chain2-") || label.starts_with("chain3-");
+        let has_negative = outcome.iter().any(|o| !matches!(o, Outcome::Positive));
         for preserve in [false, true] {
-            out.push(World { label: format!("{label} preserve_intermediates={preserve}"), table: table.clone(), outcome: outcome.clone(), chain_l: chain_l.clone(), same_response_l: same_response_l.clone(), preserve });
+            for opts in if enumerated_chain { 0..1u8 } else { 0..3u8 } {
+                for verifying in if has_negative && opts == 0 { vec![false, true] } else { vec![false] } {
+                    out.push(World {
+                        label: format!("{label} preserve_intermediates={preserve} opts={opts} verifying={verifying}"),
+                        table: table.clone(),
+                        outcome: outcome.clone(),
+                        chain_l: chain_l.clone(),
+                        same_response_l: same_response_l.clone(),
+                        preserve,
+                        opts,
+                        verifying,
+                    });
+                }
+            }
+        }
+    }
+    out
+}
+
+/// lookup_ip layer: A and AAAA lookups merged by `LookupIpFuture` (`Lookup::append`: the sooner deadline)
+struct IpWorld {
+    label: String,
+    table: Vec<(Query, Reply)>,
+    /// lifetime of node 0 = (n, A) and node 1 = (n, AAAA): smallest TTL, or the negative TTL
+    node_l: [u64; 2],
+    strategy: LookupIpStrategy,
+}
+
+fn ip_worlds() -> Vec<IpWorld> {
+    let aaaa = |ttl: u32| Record::from_rdata(n("n.z."), ttl, RData::AAAA(AAAA::new(0x2001, 0xdb8, 0, 0, 0, 0, 0, 1)));
+    let nodata = |s: u32| Reply::Msg(vec![], vec![soa_rec(s, s)], vec![], ResponseCode::NoError);
+    let pos = |an: Vec<Record>| Reply::Msg(an, vec![], vec![], ResponseCode::NoError);
+    let mut shapes: Vec<(String, Reply, u64, Reply, u64)> = vec![];
+    for a in [1u32, 2, 300] {
+        for b in [1u32, 2, 300] {
+            shapes.push((format!("a={a} aaaa={b}"), pos(vec![a_rec("n.z.", a, 1)]), a as u64, pos(vec![aaaa(b)]), b as u64));
+        }
+    }
+    shapes.push(("a=300 aaaa=nodata(2)".into(), pos(vec![a_rec("n.z.", 300, 1)]), 300, nodata(2), 2));
+    shapes.push(("a=nodata(2) aaaa=1".into(), nodata(2), 2, pos(vec![aaaa(1)]), 1));
+    shapes.push(("a=nodata(1) aaaa=nodata(2)".into(), nodata(1), 1, nodata(2), 2));
+    let mut out = vec![];
+    for (label, ra, la, rb, lb) in shapes {
+        for strategy in [
+            LookupIpStrategy::Ipv4Only,
+            LookupIpStrategy::Ipv6Only,
+            LookupIpStrategy::Ipv4AndIpv6,
+            LookupIpStrategy::Ipv6AndIpv4,
+            LookupIpStrategy::Ipv4thenIpv6,
+            LookupIpStrategy::Ipv6thenIpv4,
+        ] {
+            out.push(IpWorld {
+                label: format!("lookup_ip {label} strategy={strategy:?}"),
+                table: vec![(Query::new(n("n.z."), RecordType::A), ra.clone()), (Query::new(n("n.z."), RecordType::AAAA), rb.clone())],
+                node_l: [la, lb],
+                strategy,
+            });
         }
     }
     out
@@ -383,8 +545,17 @@ pub fn run(thorough: bool, only: Option<&str>, l: &mut Local) -> SeamStats {
         .iter()
         .map(|w| {
             let calls = Arc::new(Mutex::new(vec![0u32; w.table.len()]));
-            let up = Upstream { table: Arc::new(w.table.clone()), calls: calls.clone() };
+            let up = Upstream { table: Arc::new(w.table.clone()), calls: calls.clone(), verifying: w.verifying };
             Live { client: CachingClient::new(64, up, w.preserve), calls, last_fetch_end: vec![None; w.table.len()], last_fetch_alone: vec![false; w.table.len()], t0: None, log: vec![] }
+        })
+        .collect();
+    let ipw: Vec<IpWorld> = ip_worlds().into_iter().filter(|w| only.map(|o| o == w.label).unwrap_or(true)).collect();
+    let mut ip_live: Vec<Live> = ipw
+        .iter()
+        .map(|w| {
+            let calls = Arc::new(Mutex::new(vec![0u32; 2]));
+            let up = Upstream { table: Arc::new(w.table.clone()), calls: calls.clone(), verifying: false };
+            Live { client: CachingClient::new(64, up, true), calls, last_fetch_end: vec![None; 2], last_fetch_alone: vec![false; 2], t0: None, log: vec![] }
         })
         .collect();
     let rounds_ms: Vec<u64> = if thorough { vec![0, 0, 1150, 2150, 3150, 4150] } else { vec![0, 0, 1150, 2150, 3150] };
@@ -406,7 +577,7 @@ pub fn run(thorough: bool, only: Option<&str>, l: &mut Local) -> SeamStats {
                 let q = w.table[node].0.clone();
                 let before = lv.calls.lock().unwrap().clone();
                 let t_start = Instant::now();
-                let res = rt.block_on(lv.client.lookup(q.clone(), DnsRequestOptions::default()));
+                let res = rt.block_on(lv.client.lookup(q.clone(), options(w.opts)));
                 let t_end = Instant::now();
                 let after = lv.calls.lock().unwrap().clone();
                 lookups += 1;
@@ -427,7 +598,7 @@ pub fn run(thorough: bool, only: Option<&str>, l: &mut Local) -> SeamStats {
                     Err(e) => json!({"error": e.to_string()}),
                 };
                 lv.log.push(json!({"round": round, "nominal_ms": off, "query": format!("{} {}", q.name, q.query_type), "fetched_upstream": fetched, "result": summary}));
-                let mut viol = |l: &mut Local, key: &str, what: String, log: &Vec<Value>| {
+                let viol = |l: &mut Local, key: &str, what: String, log: &Vec<Value>| {
                     l.violation(key, &what, || json!({"seam": true, "world": w.label, "upstream": w.table.iter().map(|(q, r)| format!("{} {} -> {:?}", q.name, q.query_type, r)).collect::<Vec<_>>(), "lookups": log}));
                 };
                 // TTLs never above upstream, whether fetched or cached
@@ -543,6 +714,76 @@ pub fn run(thorough: bool, only: Option<&str>, l: &mut Local) -> SeamStats {
                 lv.t0 = Some(Instant::now());
             }
         }
+        // the lookup_ip layer over the same kind of client
+        for (wi, w) in ipw.iter().enumerate() {
+            let lv = &mut ip_live[wi];
+            if let Some(t0) = lv.t0 {
+                let due = t0 + Duration::from_millis(*off);
+                let now = Instant::now();
+                if due > now {
+                    std::thread::sleep(due - now);
+                }
+            }
+            let before = lv.calls.lock().unwrap().clone();
+            let t_start = Instant::now();
+            let fut = LookupIpFuture::lookup(vec![n("n.z.")], w.strategy, lv.client.clone(), DnsRequestOptions::default(), Arc::new(Hosts::default()), None);
+            let res = rt.block_on(fut);
+            let t_end = Instant::now();
+            let after = lv.calls.lock().unwrap().clone();
+            lookups += 1;
+            l.eval();
+            // lower bound of the age of what each node contributes
+            let mut age_ms = [0u64; 2];
+            for y in 0..2 {
+                if after[y] > before[y] {
+                    lv.last_fetch_end[y] = Some(t_end);
+                } else if let Some(p) = lv.last_fetch_end[y] {
+                    age_ms[y] = t_start.saturating_duration_since(p).as_millis() as u64;
+                }
+            }
+            let summary = match &res {
+                Ok(ip) => json!({"ok": ip.as_lookup().answers().iter().map(|r| format!("{} {} ttl={}", r.name, r.data, r.ttl)).collect::<Vec<_>>(), "valid_for_ms": ip.valid_until().saturating_duration_since(t_end).as_millis() as u64}),
+                Err(e) => json!({"error": e.to_string()}),
+            };
+            lv.log.push(json!({"round": round, "nominal_ms": off, "fetched": [after[0] > before[0], after[1] > before[1]], "result": summary}));
+            if lv.t0.is_none() {
+                lv.t0 = Some(Instant::now());
+            }
+            let viol = |l: &mut Local, key: &str, what: String, log: &Vec<Value>| {
+                l.violation(key, &what, || json!({"seam": true, "world": w.label, "upstream": w.table.iter().map(|(q, r)| format!("{} {} -> {:?}", q.name, q.query_type, r)).collect::<Vec<_>>(), "lookups": log}));
+            };
+            if let Ok(ip) = &res {
+                let mut shortest: Option<u64> = None;
+                for r in ip.as_lookup().answers() {
+                    let y = match r.record_type() {
+                        RecordType::A => 0,
+                        RecordType::AAAA => 1,
+                        _ => continue,
+                    };
+                    let fetched = after[y] > before[y];
+                    if !fetched && age_ms[y] > w.node_l[y] * 1000 {
+                        viol(l, "seam:lookup-ip:served-after-expiry", format!("{} address from the cache at least {} ms after the fetch, TTL {} s", r.record_type(), age_ms[y], w.node_l[y]), &lv.log);
+                    }
+                    let left = w.node_l[y].saturating_sub(age_ms[y] / 1000);
+                    if r.ttl as u64 > left {
+                        viol(l, "seam:lookup-ip:ttl-too-high", format!("{} reported ttl {}, upstream {} s, age >= {} ms", r.record_type(), r.ttl, w.node_l[y], age_ms[y]), &lv.log);
+                    }
+                    shortest = Some(shortest.map_or(left, |x| x.min(left)));
+                }
+                if let Some(sh) = shortest {
+                    if ip.valid_until() > t_end + Duration::from_secs(sh) {
+                        viol(
+                            l,
+                            "seam:lookup-ip:valid-until-beyond-the-shortest-lived-address",
+                            format!("LookupIp::valid_until is {} ms after the end of the lookup, the shortest-lived returned address has {sh} s left", ip.valid_until().saturating_duration_since(t_end).as_millis()),
+                            &lv.log,
+                        );
+                    } else {
+                        l.outcome("seam:lookup-ip:judged");
+                    }
+                }
+            }
+        }
     }
-    SeamStats { worlds: worlds.len(), lookups }
+    SeamStats { worlds: worlds.len() + ipw.len(), lookups }
 }
